@@ -10,6 +10,7 @@ import (
 	"context"
 	"errors"
 	"fmt"
+	"log/slog"
 	"os"
 	"runtime/debug"
 	"syscall"
@@ -255,9 +256,14 @@ func runSignal(rc *kernel.RunCtx, k *kernel.Kernel) {
 		for _, sig := range script {
 			deliver(sig)
 		}
-		// Faults stop: one shutdown signal is (re)sent until it is enqueued.
-		for i := 0; i < 8; i++ {
+		// Faults stop: one shutdown signal is re-sent until it is enqueued
+		// (every attempt is a step, so a handler that is alive drains the
+		// one-slot channel in between) or Handle has returned.
+		for i := 0; i < 64; i++ {
 			if deliver(finalSig) {
+				break
+			}
+			if k.Ask("signal.retry", func() any { return returned }).(bool) {
 				break
 			}
 		}
@@ -748,6 +754,7 @@ func runRefresh(rc *kernel.RunCtx, k *kernel.Kernel) {
 // loopQuiet reports whether the worker goroutine is not parked in a seam.
 func (s *refreshSim) loopQuiet() bool { return s.loop == nil || !s.loop.IsParked() }
 
-var _ = installHooks
-
-func installHooks() {}
+// installHooks: the service package needs no hooks; the default slog logger
+// (used by RefreshWorker to report recovered panics, among them the
+// scheduler's own abort sentinel at the end of a run) is silenced.
+func installHooks() { slog.SetDefault(slog.New(slog.DiscardHandler)) }
